@@ -266,7 +266,8 @@ impl ColumnParsing {
                         let mut second = 0u32;
                         let mut microsecond = 0u32;
 
-                        for (index, pattern) in patterns.iter().enumerate() {
+                        // Year, month, day, hour, minute, second, fraction: groups listed after the seventh take no part
+                        for (index, pattern) in patterns.iter().enumerate().take(7) {
                             let value = ColumnParsing::extract_using_regex(&ValueType::Int, parsing_input, pattern, Value::Null);
 
                             if let Value::Int(value_i64) = value {
